@@ -59,6 +59,8 @@ var gfModules = map[string]gfModule{
 	"go1.18":      {"example.com/m", "1.18"},
 	"go1.24.2":    {"example.com/m", "1.24.2"}, // a three-part go directive
 	"go1.21local": {"m", "1.21"},               // a module path without a dot: its packages look like std to an import grouper that ignores ModulePath
+	// the module is one of two in a go.work workspace; the other one (go 1.12, another path) is generated first in the same Execute
+	"ws1.24": {"example.com/m", "1.24"},
 }
 
 // gfPkgName: in the go1.18 module the package clause differs from the directory name
@@ -128,6 +130,9 @@ func fragScript(mod gfModule, self string, f gfFrag, i int) [][]pipe.ScriptPart 
 		parts = append(parts, t(fmt.Sprintf("var (\n\tGS%d = 1\n)", i)))
 	case "octal":
 		parts = append(parts, t(fmt.Sprintf("const O%d = 0644", i)))
+	case "oddcomment":
+		// nothing here for gofumpt to change, but go/printer needs more than one pass to settle (a comment inside the brackets)
+		parts = append(parts, t(fmt.Sprintf("var L%d = [\n// sizes %d\n] int { 1 , 2 , 3 }", i, i)))
 	case "tmpl":
 		parts = append(parts, pipe.ScriptPart{Tmpl: fmt.Sprintf("var U%d @used", i), Used: self + ".T1", Unused: "encoding/xml.Decoder"})
 	}
@@ -400,6 +405,20 @@ func genfileBatch(self, modName string, idx []int, parsed []gfCase, obsOf, concO
 	}
 	defer os.RemoveAll(scratch)
 	root := filepath.Join(scratch, "m")
+	ws := modName == "ws1.24"
+	wsRoot := root
+	if ws {
+		wsRoot = filepath.Join(scratch, "w")
+		root = filepath.Join(wsRoot, "m")
+		if err := core.WriteFiles(wsRoot, map[string]string{
+			"go.work":             "go 1.24\n\nuse (\n\t./legacy\n\t./m\n)\n",
+			"legacy/go.mod":       "module a.example/legacy\n\ngo 1.12\n",
+			"legacy/old/doc.go":   "// Package old lives in the other module of the workspace.\n//\n// +gengo:a\npackage old\n",
+			"legacy/old/types.go": "package old\n\ntype T1 struct{}\n",
+		}); err != nil {
+			return err
+		}
+	}
 	files := map[string]string{
 		"go.mod":               "module " + mod.Path + "\n\ngo " + mod.Go + "\n",
 		"dep/json/json.go":     "package json\n\ntype T struct{}\n",
@@ -426,7 +445,19 @@ func genfileBatch(self, modName string, idx []int, parsed []gfCase, obsOf, concO
 		return err
 	}
 	run := func(patterns []string, tag string) (pipe.RunResult, error) {
-		spec := pipe.RunSpec{Dir: root, Layout: "siblings", Patterns: patterns, Gens: []pipe.GenSpec{{Name: "a"}}, Plan: map[string]string{}, Bodies: bodies,
+		if ws {
+			// both modules of the workspace in one Execute: the other module's package sorts (and is generated) first
+			var wp []string
+			for _, p := range patterns {
+				if p == "./..." {
+					wp = append(wp, "./legacy/...", "./m/...")
+				} else {
+					wp = append(wp, "./legacy/...", "./m/"+strings.TrimPrefix(p, "./"))
+				}
+			}
+			patterns = wp
+		}
+		spec := pipe.RunSpec{Dir: wsRoot, Layout: "siblings", Patterns: patterns, Gens: []pipe.GenSpec{{Name: "a"}}, Plan: map[string]string{}, Bodies: bodies,
 			Log: filepath.Join(scratch, "calls-"+tag+".ndjson"), Result: filepath.Join(scratch, "result-"+tag+".json")}
 		b, _ := json.Marshal(spec)
 		sp := filepath.Join(scratch, "spec-"+tag+".json")
@@ -434,6 +465,9 @@ func genfileBatch(self, modName string, idx []int, parsed []gfCase, obsOf, concO
 			return pipe.RunResult{}, err
 		}
 		cmd := exec.Command(self, "child", "pipeline-run", sp)
+		if ws {
+			cmd.Env = append(os.Environ(), "GOFLAGS=") // the go command refuses -mod=mod in workspace mode
+		}
 		var se bytes.Buffer
 		cmd.Stderr = &se
 		if err := cmd.Run(); err != nil {
@@ -481,7 +515,7 @@ func genfileBatch(self, modName string, idx []int, parsed []gfCase, obsOf, concO
 	// compile the whole module once; attribute errors to packages
 	cmd := exec.Command("go", "build", "./...")
 	cmd.Dir = root
-	cmd.Env = append(os.Environ(), "GOFLAGS=-mod=mod")
+	cmd.Env = append(os.Environ(), "GOFLAGS=-mod=mod", "GOWORK=off")
 	out, _ := cmd.CombinedOutput()
 	compileErrs := map[int][]string{}
 	lineRe := regexp.MustCompile(`^(?:\./)?c(\d+)/[^:]+:\d+:\d+: (.*)$`)
